@@ -180,12 +180,12 @@ func runReadCase(r *ev.Run, n int, distinct bool, c *rcase) {
 					targets = append(targets, nd)
 				}
 			}
-			switch k := bits.OnesCount(uint(p)); {
-			case k == R && R > 1:
+			switch cnt := bits.OnesCount(uint(p)); {
+			case cnt == R && R > 1:
 				r.Note("placements", "on-all-read-replicas")
 				r.Note("placements", "on-several-read-replicas")
 				nontrivial = true
-			case k > 1:
+			case cnt > 1:
 				r.Note("placements", "on-several-read-replicas")
 				nontrivial = true
 			default:
